@@ -87,6 +87,13 @@ class C01(Prop):
         in_handler = ctx.sched.draw(5) == 0
         if in_handler:
             ctx.probe("form_read_while_handling_an_exception")
+        no_cl = ctx.sched.draw(6) == 0
+        if no_cl:
+            ctx.probe("wsgi_body_without_content_length")
+        factory = None
+        if ctx.sched.draw(5) == 0:
+            ctx.probe("upload_class_with_len")
+            factory = feed.len_upload_factory()
         body_first = ctx.sched.draw(5) == 0
         if body_first:
             ctx.probe("body_read_before_form")
@@ -100,11 +107,11 @@ class C01(Prop):
                     if surf == "decoder":
                         got, extra = feed.run_decoder(form["boundary"], pieces, reuse_buffer=reuse)
                     elif surf == "parse_stream":
-                        got = feed.items_of_sync(feed.run_parse_stream(form["boundary"], pieces, reuse_buffer=reuse))
+                        got = feed.items_of_sync(feed.run_parse_stream(form["boundary"], pieces, file_factory=factory, reuse_buffer=reuse))
                     elif surf == "parse_async_stream":
-                        got = feed.run_parse_async_stream(ctx, form["boundary"], pieces, delays, post=feed.items_of_async)
+                        got = feed.run_parse_async_stream(ctx, form["boundary"], pieces, delays, file_factory=factory, post=feed.items_of_async)
                     elif surf == "wsgi_form":
-                        got, _ = feed.run_wsgi_form(ctx, ct, pieces, in_handler=in_handler, body_first=body_first)
+                        got, _ = feed.run_wsgi_form(ctx, ct, pieces, in_handler=in_handler, body_first=body_first, no_content_length=no_cl)
                     else:
                         got, _ = feed.run_asgi_form(ctx, ct, pieces, delays, in_handler=in_handler, body_first=body_first)
                 except (SimDeadlock, SimTimeLimit, SimStepLimit) as e:
